@@ -184,7 +184,7 @@ def run_judge(universe_sx, cases, obs, workdir, shards=None):
     res = {}
 
     def one(p):
-        return sh([judge_exe(), upath, p], timeout=3600).stdout
+        return sh(['/bin/sh', '-c', 'ulimit -s unlimited 2>/dev/null || ulimit -s 1000000; exec "$0" "$1" "$2"', judge_exe(), upath, p], timeout=3600).stdout
     with ThreadPoolExecutor(max_workers=shards) as ex:
         for out in ex.map(one, paths):
             for ln in out.split('\n'):
